@@ -745,6 +745,13 @@ func runRandom(r *ev.Run, rp *reporter, rng *rand.Rand) {
 			}
 			fs := x.step(op, true)
 			rp.report("random", h, x, fs)
+			if !x.tainted && !x.dead && len(fs) == 0 && rng.Intn(12) == 0 {
+				// the history continues on a restarted PD: a new manager on the same storage
+				// (what it serves was just checked to equal the old one)
+				if x.restart() {
+					r.Count("restarts_inside_histories", 1)
+				}
+			}
 			if x.tainted && !x.dead && isGetEditSet(op) {
 				// The storage is now behind what is served and stays so until that rule / group is
 				// really rewritten. So that the rest of the history is not blind on the reload
@@ -935,6 +942,9 @@ func main() {
 	}
 	if r.Shard%4 == 0 {
 		phase("single-field", func() { runFields(r, rp) })
+		phase("odd-ids", func() { runOddIDs(r, rp) })
+		phase("key-type", func() { runKeyType(r, rp) })
+		phase("lifecycle", func() { runLifecycle(r, rp) })
 	}
 	phase("random", func() { runRandom(r, rp, rng) })
 	phase("readers-vs-writer", func() { runConcurrent(r, rp, rng) })
